@@ -93,6 +93,9 @@ class Report:
         return ok
 
     def violation(self, family, what, replay):
+        if len(self.violations) >= 12:      # enough replays to act on; keep counting
+            self.violations.append({'family': family, 'what': what[:300], 'replay': None})
+            return
         os.makedirs(os.path.join(EVID, 'replays'), exist_ok=True)
         h = hashlib.sha1(json.dumps(replay, sort_keys=True, default=repr).encode()).hexdigest()[:10]
         path = os.path.join(EVID, 'replays', '%s-%s.json' % (self.pid, h))
